@@ -90,7 +90,9 @@ def body(case):
 def _drive(case, run):
     # runs pushed to the float resolution are the ones in which a degenerate interval can send the method or the
     # queue into a loop that evaluates nothing: bound every call by executed lines
-    run.line_guard = case["params"]["eps"] < 1e-12 or bool(case["recipe"].get("huge"))
+    # (not with a painter attached: its 150 x 150 probes of the objective are legitimate work the bound knows nothing of;
+    # such a case is left to the CPU-time alarm and its re-run)
+    run.line_guard = (case["params"]["eps"] < 1e-12 or bool(case["recipe"].get("huge"))) and not case.get("painter")
     steps = 0
     glog = []          # the evaluations of the global search (those of a local refinement are no trials of the record)
     log = run.problem.log
